@@ -65,7 +65,7 @@ def check(pm: ProgramModel, ctx: Ctx) -> None:
         "integers); cycles are fixpoints with identical text; returned = written (UTF-8); reader "
         "output well-formed (unary operand first).")
     ctx.not_decided = ["names outside the AFM WORD token (the format cannot carry them)",
-                       "interactions between dimensions beyond the combined abstract model"]
+                       "three-way and higher interactions between dimensions (every two-way combination is in the pairwise family)"]
     mb = ModelBuilder(pm)
     cd = Codec(pm, ctx, W, R, "C06", diff_opts={"ctc_compare": "semantic", "ctc_names": False},
                wsetup=install_antlr, rsetup=install_antlr)
